@@ -536,6 +536,69 @@ def _alloc_size_sites(body, pnames: list[str]) -> list[dict]:
     return out
 
 
+def _floor_of_quotient(body) -> list[dict]:
+    """Calls `floor(v)` where v is a local that some statement assigns from a floating division; with whether
+    the function also corrects the result to the nearest integer (a comparison of `v - <floored>` with 0.5)."""
+    divided: set[str] = set()
+
+    def scan(n):
+        if n.get("kind") == "BinaryOperator" and n.get("opcode") == "=" and len(n.get("inner", [])) == 2:
+            l, r = n["inner"]
+            ls = _strip(l)
+            if ls.get("kind") == "DeclRefExpr":
+                def has_div(x):
+                    if x.get("kind") == "BinaryOperator" and x.get("opcode") == "/":
+                        return True
+                    return any(has_div(y) for y in x.get("inner", []) or [] if isinstance(y, dict))
+                if has_div(r):
+                    divided.add(ls.get("referencedDecl", {}).get("name"))
+        if n.get("kind") == "VarDecl" and n.get("name"):
+            for c in n.get("inner", []) or []:
+                if isinstance(c, dict):
+                    def has_div2(x):
+                        if x.get("kind") == "BinaryOperator" and x.get("opcode") == "/":
+                            return True
+                        return any(has_div2(y) for y in x.get("inner", []) or [] if isinstance(y, dict))
+                    if has_div2(c):
+                        divided.add(n["name"])
+        for c in n.get("inner", []) or []:
+            if isinstance(c, dict):
+                scan(c)
+    scan(body)
+    half: set[str] = set()
+
+    def scan_half(n):
+        if n.get("kind") == "BinaryOperator" and n.get("opcode") in (">", ">=", "<", "<=") and len(n.get("inner", [])) == 2:
+            sides = [_strip(x) for x in n["inner"]]
+            lit = [x for x in sides if x.get("kind") == "FloatingLiteral" and str(x.get("value")) in ("0.5", "0.50", "5.0E-1", "0.5E+0", "5.0e-01")]
+            if lit:
+                for x in sides:
+                    if x.get("kind") == "BinaryOperator" and x.get("opcode") == "-":
+                        names: set = set()
+                        _names_in(x, names)
+                        half.update(names)
+        for c in n.get("inner", []) or []:
+            if isinstance(c, dict):
+                scan_half(c)
+    scan_half(body)
+    out: list[dict] = []
+
+    def walk(n):
+        if n.get("kind") == "CallExpr" and n.get("inner"):
+            nm = _strip(n["inner"][0]).get("referencedDecl", {}).get("name")
+            if nm == "floor" and len(n["inner"]) >= 2:
+                a = _strip(n["inner"][1])
+                if a.get("kind") == "DeclRefExpr":
+                    v = a.get("referencedDecl", {}).get("name")
+                    if v in divided:
+                        out.append({"var": v, "line": n.get("range", {}).get("begin", {}).get("line"), "snapped": v in half})
+        for c in n.get("inner", []) or []:
+            if isinstance(c, dict):
+                walk(c)
+    walk(body)
+    return out
+
+
 def _reduce(doc: dict) -> dict:
     res = {}
     for n in doc.get("inner", []):
@@ -571,6 +634,9 @@ def _reduce(doc: dict) -> dict:
             ass = _alloc_size_sites(body[0], [pn for pn in pnames if pn])
             if ass:
                 ent["alloc_size_sites"] = ass
+            foq = _floor_of_quotient(body[0])
+            if foq:
+                ent["floor_of_quotient"] = foq
             sev = _slot_events(body[0])
             if any(e["ev"] == "store" for e in sev):
                 ent["slot_events"] = sev
